@@ -46,7 +46,7 @@ EXHAUSTIVE = {"quick": True, "thorough": True}
 
 DEFAULT_CAP = 32 * 2**20
 CAPS = [0, 1, 64, None]
-MUTATING = {"set", "del", "app", "ext", "idx", "pop", "sdf", "upd", "clr", "rst"}
+MUTATING = {"set", "del", "app", "ext", "idx", "pop", "sdf", "upd", "clr", "rst", "live"}
 ATTR_KEYS = {"a", "b", "c", "k", "x", "y", "z", "q"}
 KEYS = ["a", "b", "x", "y", "k", "é", "a b", ""]
 PYEQ_VALUES = [1, 1.0, True, 0, 0.0, False, "1", None, [1], [1.0], [True, 0], {"a": 1}, {"a": 1.0},
@@ -85,6 +85,8 @@ def _ref_walk(d, path):
 def ref_apply(doc, op):
     """Apply op to the plain dict `doc` in place.  Returns ("ok", value|None) or ("err", name)."""
     kind = op["op"]
+    if kind in ("live", "bad"):
+        return ("ok", None)  # self-assignment / refused assignment: the plain dict stays as it is
     try:
         if kind in ("set", "del", "app", "ext", "idx"):
             tgt = _ref_walk(doc, op["p"])
@@ -155,7 +157,7 @@ def enc_cmd(c):
             return "R %d" % c["f"]
         if c["c"] == "H":
             return "H"
-        if c["c"] == "K":
+        if c["c"] in ("K", "N"):  # for the model both mean: every handle object of the document is a new one
             return "K %d" % c["f"]
         raise ValueError(c)
     k = c["op"]
@@ -224,12 +226,34 @@ def _attr_ok(cur, seg, st):
     return st == 1 and isinstance(seg, str) and seg in ATTR_KEYS and isinstance(cur, Mapping)
 
 
-def _impl_op(owner, nth, op):
+BAD_TEXT = {"dot": "a mapping with a dotted key", "list": "a list", "int": "an int", "set": "a mapping holding a set"}
+
+
+def _bad_value(kind):
+    return {"dot": {"a.b": 1}, "list": [1], "int": 5, "set": {"a": {1, 2}}}[kind]
+
+
+def _impl_bad(owner, nth, op):
+    st = op.get("st", 1)
+    try:
+        if st == 1:
+            owner.document = _bad_value(op["kind"])
+        elif st == 2:
+            owner.doc = _bad_value(op["kind"])
+        else:
+            (owner.doc if nth % 2 else owner.document).reset(_bad_value(op["kind"]))
+        return ("ok", None)
+    except Exception as e:  # noqa: BLE001
+        return ("err", exc_name(e))
+
+
+def _impl_op(owner, nth, op, owners=None):
     """Run one document operation on the real object; returns ("ok", value|None) / ("err", name)."""
     st = op.get("st", 0)
     kind = op["op"]
     try:
-        h = owner.doc if nth % 2 else owner.document
+        if not (kind == "rst" and st in (1, 2)):  # the setter spelling must not touch the handle before
+            h = owner.doc if nth % 2 else owner.document
         if kind in ("set", "del", "app", "ext", "idx"):
             cur = h
             for seg in op["p"]:
@@ -273,6 +297,9 @@ def _impl_op(owner, nth, op):
             return ("ok", None)
         if kind == "rst":
             v = copy.deepcopy(op["v"])
+            if "src" in op:  # the LIVE document view of (another handle of) the same document
+                src = owners[op["src"]]
+                v = src.document if nth % 3 else src.doc
             if st == 1:
                 owner.document = v
             elif st == 2:
@@ -306,6 +333,7 @@ class Run:
     def __init__(self, case, cmds, ctx, label):
         self.case, self.cmds, self.ctx, self.label = case, cmds, ctx, label
         self.outs = []
+        self.mtoks = []       # the commands as the model sees them (one token group per output)
         self.fails = []       # (kind, file, cmd index, message)
         self.null_hits = {}   # file -> index of the first command at which `None` met a remembered dict/list
         self.blocks = []      # per outermost block: facts for the known-finding classes
@@ -353,9 +381,9 @@ class Run:
             nth = 0
             for i, c in enumerate(cmds):
                 if aborted:
-                    self.outs.append("ABORTED")
-                    continue
+                    break
                 if "c" in c:
+                    self.mtoks.append(enc_cmd(c))
                     if c["c"] == "E":
                         if depth == 0:
                             block = {"start": i, "objs": {}, "mut": set(), "writers": {},
@@ -435,49 +463,46 @@ class Run:
                                 mem[o2] = {}
                                 if o2 != c["o"]:
                                     owners[o2] = self.owner_for(o2, fresh=True)
+                    elif c["c"] == "N":
+                        f = c["f"]
+                        self.outs.append("-")
+                        for o2, f2 in enumerate(case["objs"]):
+                            if f2 == f:
+                                mem[o2] = {}
+                                owners[o2] = self.owner_for(o2, fresh=True)
                     elif c["c"] == "H":
                         self.outs.append("V T" if self.null_hits else "V F")
                     continue
-                # document operation
-                o = c["o"]
-                f = case["objs"][o]
-                nth += 1
-                got = _impl_op(owners[o], nth, c)
-                hz = False
-                if c["op"] == "rst":
-                    hz = null_hit(mem[o], c["v"])
-                elif c["op"] != "clr":
-                    hz = null_hit(mem[o], ref[f])
-                    if c["op"] == "upd":
-                        hz = hz or null_hit(ref[f], {**ref[f], **c["v"]})
-                if hz:
-                    self.null_hits.setdefault(f, i)
-                want = ref_apply(ref[f], c)
-                mem[o] = copy.deepcopy(ref[f])
-                if block is not None:
-                    block["objs"].setdefault(f, set()).add(o)
-                    if c["op"] in MUTATING:
-                        block["mut"].add(f)
-                if got[0] == "err":
-                    self.outs.append("E:" + got[1])
-                    self.errors.add(got[1])
-                elif got[1] is None and c["op"] not in ("get", "pop", "sdf", "read"):
-                    self.outs.append("-")
-                else:
-                    self.outs.append("V " + enc_val(got[1]))
-                # oracle: same outcome as the plain dict
-                own_block = block is None or block["writers"].get(f, {o}) <= {o}
-                if got[0] != want[0] or (got[0] == "err" and got[1] != want[1]):
-                    if own_block:
-                        self.fail("exc" if "err" in (got[0], want[0]) else "ret", f, i,
-                                  "%s through handle %d: real %r, plain dict %r" % (c["op"], o, got, want))
-                elif got[0] == "ok" and c["op"] in ("get", "pop", "sdf", "read") and got[1] != want[1]:
-                    if own_block:
-                        self.fail("read" if c["op"] in ("get", "read") else "ret", f, i,
-                                  "%s through handle %d of %s returns %r, plain dict gives %r"
-                                  % (c["op"], o, case["files"][f], got[1], want[1]))
-                if block is not None and c["op"] in MUTATING:
-                    block["writers"].setdefault(f, set()).add(o)
+                # document operation(s)
+                if c["op"] == "bad":
+                    # an assignment the library must refuse: raises, and the document stays as it is
+                    nth += 1
+                    got = _impl_bad(owners[c["o"]], nth, c)
+                    if got[0] != "err":
+                        self.fail("exc", case["objs"][c["o"]], i, "assigning %s through handle %d was accepted "
+                                  "(must raise and leave the document unchanged)" % (BAD_TEXT[c["kind"]], c["o"]))
+                    else:
+                        self.errors.add(got[1])
+                    continue
+                steps = [c]
+                if c["op"] == "live":
+                    # `owner.doc = other.doc`: a read through the source handle, then a whole assignment of
+                    # that value; for a plain dict, assigning the dict to itself changes nothing
+                    steps = [{"o": c["src"], "op": "read"}, dict(c, op="rst", v=None)]
+                live_val = None
+                for c in steps:
+                  if c["op"] == "rst" and c.get("v") is None:
+                      if live_val is None:
+                          break
+                      c = dict(c, v=live_val)
+                  self.mtoks.append(enc_cmd(c))
+                  o = c["o"]
+                  f = case["objs"][o]
+                  nth += 1
+                  got = _impl_op(owners[o], nth, c, owners)
+                  if c["op"] == "read" and got[0] == "ok":
+                      live_val = got[1]
+                  self._judge(i, c, o, f, got, ref, mem, block)
             # leave blocks that the program left open (never generated; keeps the process clean)
             while stack:
                 try:
@@ -499,6 +524,47 @@ class Run:
             self.ctx.cleanup(self.root)
         return self
 
+    def _judge(self, i, c, o, f, got, ref, mem, block):
+        case = self.case
+        hz = False
+        if c["op"] == "rst":
+            hz = null_hit(mem[o], c["v"])
+        elif c["op"] != "clr":
+            hz = null_hit(mem[o], ref[f])
+            if c["op"] == "upd":
+                hz = hz or null_hit(ref[f], {**ref[f], **c["v"]})
+        if hz:
+            self.null_hits.setdefault(f, i)
+        if "src" in c:
+            want = ("ok", None)  # a plain dict assigned to itself is unchanged
+        else:
+            want = ref_apply(ref[f], c)
+        mem[o] = copy.deepcopy(ref[f])
+        if block is not None:
+            block["objs"].setdefault(f, set()).add(o)
+            if c["op"] in MUTATING:
+                block["mut"].add(f)
+        if got[0] == "err":
+            self.outs.append("E:" + got[1])
+            self.errors.add(got[1])
+        elif got[1] is None and c["op"] not in ("get", "pop", "sdf", "read"):
+            self.outs.append("-")
+        else:
+            self.outs.append("V " + enc_val(got[1]))
+        # oracle: same outcome as the plain dict
+        own_block = block is None or block["writers"].get(f, {o}) <= {o}
+        if got[0] != want[0] or (got[0] == "err" and got[1] != want[1]):
+            if own_block:
+                self.fail("exc" if "err" in (got[0], want[0]) else "ret", f, i,
+                          "%s through handle %d: real %r, plain dict %r" % (c["op"], o, got, want))
+        elif got[0] == "ok" and c["op"] in ("get", "pop", "sdf", "read") and got[1] != want[1]:
+            if own_block:
+                self.fail("read" if c["op"] in ("get", "read") else "ret", f, i,
+                          "%s through handle %d of %s returns %r, plain dict gives %r"
+                          % (c["op"], o, case["files"][f], got[1], want[1]))
+        if block is not None and c["op"] in MUTATING:
+            block["writers"].setdefault(f, set()).add(o)
+
     def _exists(self, f):
         try:
             return os.path.exists(self.doc_path(f))
@@ -517,11 +583,10 @@ def run_case(case, ctx):
     cmds = case["cmds"]
     has_block = any(c.get("c") == "E" for c in cmds)
     runs = [Run(case, cmds, ctx, "as written").execute()]
-    model = [enc_program(case, cmds)]
     if has_block:
-        stripped = strip_blocks(cmds)
-        runs.append(Run(case, stripped, ctx, "unbuffered").execute())
-        model.append(enc_program(case, stripped))
+        runs.append(Run(case, strip_blocks(cmds), ctx, "unbuffered").execute())
+    model = ["run %d %d %s %s" % (len(case["files"]), len(case["objs"]), " ".join(str(f) for f in case["objs"]),
+                                  " ".join(r.mtoks)) for r in runs]
     impl = [" ; ".join(r.outs) for r in runs]
     fails = []
     for ri, r in enumerate(runs):
@@ -591,6 +656,8 @@ def multi_object_files(case):
         elif "op" in c and depth > 0:
             f = case["objs"][c["o"]]
             used.setdefault(f, set()).add(c["o"])
+            if "src" in c:
+                used[f].add(c["src"])
             if len(used[f]) >= 2:
                 out.setdefault(f, start)
     return out
@@ -695,8 +762,10 @@ REDUCED_OPS = [
     {"op": "app", "p": ["l"], "v": 0},
     {"op": "sdf", "k": "x", "v": {"n": 1}},
     {"op": "set", "p": ["x"], "k": "n", "v": 2},
+    {"op": "rst", "v": {}, "st": 1},
+    {"op": "live", "src": 0, "st": 2},
 ]
-QUICK_ALPHABET = [(0, 0), (0, 1), (0, 3), (0, 5), (0, 6), (1, 0), (1, 1), (1, 2), (1, 4), (1, 7)]
+QUICK_ALPHABET = [(0, 0), (0, 1), (0, 3), (0, 5), (0, 6), (1, 0), (1, 1), (1, 2), (1, 4), (1, 7), (1, 11), (1, 12)]
 
 
 def exhaustive(tier):
@@ -705,7 +774,7 @@ def exhaustive(tier):
     if tier == "quick":
         alphabet, maxlen = QUICK_ALPHABET, 3
     else:
-        alphabet, maxlen = QUICK_ALPHABET + [(0, 8), (1, 9)], 4
+        alphabet, maxlen = QUICK_ALPHABET + [(0, 8)], 4
     base = {"files": ["J0"], "objs": [0, 0]}
     for n in range(1, maxlen + 1):
         for seq in itertools.product(alphabet, repeat=n):
@@ -806,9 +875,15 @@ def rand_op(rng, st, f):
     if r < 0.72:
         d = {rand_key(rng, doc): rand_doc_value(rng) for _ in range(rng.randint(0, 3))}
         return {"op": "upd", "v": d, "st": spelling}
-    if r < 0.76:
+    if r < 0.75:
         return {"op": "clr"}
+    if r < 0.76:
+        return {"op": "bad", "kind": rng.choice(["dot", "list", "int", "set"]), "st": rng.choice([0, 1, 2])}
+    if r < 0.775:
+        return {"op": "live", "src": None, "st": rng.choice([0, 1, 2])}  # source handle chosen by the caller
     if r < 0.86:
+        if rng.random() < 0.15:
+            return {"op": "rst", "v": {}, "st": rng.choice([1, 2])}
         if doc and rng.random() < 0.5:  # a re-typed / re-ordered copy of the current value
             items = [(k, _retype(v, rng)) for k, v in doc.items()]
             rng.shuffle(items)
@@ -858,7 +933,12 @@ def rand_ops(rng, layout, n, allow_rm=True):
         if allow_rm and layout["files"][f] != "P" and rng.random() < 0.03:
             body.append({"c": "K", "f": f, "o": o})  # re-key: the document moves with the job
             continue
+        if allow_rm and rng.random() < 0.04:
+            body.append({"c": "N", "f": f})  # every handle of the document is obtained afresh
+            continue
         op = dict(rand_op(rng, st, f), o=o)
+        if op["op"] == "live":
+            op["src"] = rng.choice([o2 for o2, f2 in enumerate(layout["objs"]) if f2 == f])
         ref_apply(st.docs[f], op)
         body.append(op)
     return body
@@ -869,7 +949,7 @@ def add_blocks(rng, body, full, one_object=False, layout=None):
     if full:
         segs, cur = [], []
         for c in body:  # remove() cannot run inside a block: split around it
-            if c.get("c") in ("R", "K"):
+            if c.get("c") in ("R", "K", "N"):
                 if cur:
                     segs.append(cur)
                 segs.append([c])
@@ -881,11 +961,11 @@ def add_blocks(rng, body, full, one_object=False, layout=None):
         cap = rng.choice(CAPS)
         out = []
         for s in segs:
-            out += s if s[0].get("c") in ("R", "K") else [{"c": "E", "cap": cap}] + s + [{"c": "X"}]
+            out += s if s[0].get("c") in ("R", "K", "N") else [{"c": "E", "cap": cap}] + s + [{"c": "X"}]
         return out
     out, depth = [], 0
     for c in body:
-        if c.get("c") in ("R", "K"):
+        if c.get("c") in ("R", "K", "N"):
             out += [{"c": "X"}] * depth
             depth = 0
             out.append(c)
@@ -916,6 +996,8 @@ def one_object_per_block(layout, body, rng):
         elif "op" in c and depth > 0:
             f = layout["objs"][c["o"]]
             c["o"] = rep.setdefault(f, c["o"])
+            if "src" in c:
+                c["src"] = c["o"]
         out.append(c)
     return out
 
@@ -945,8 +1027,40 @@ WITNESS_SHAPES = [  # small hand-shaped families around absent documents and two
 ]
 
 
+def setter_cases(rng, n):
+    """whole assignments through the owner's setter around fresh handles: a document written through one
+    handle, then (optionally after re-obtaining every handle) `other.document = v` / `other.doc = v` as the
+    FIRST document operation of that handle: v = {}, a small dict, the live view of the same document, or a
+    value the library must refuse; unbuffered and inside a block"""
+    for _ in range(n):
+        proj = rng.random() < 0.3
+        layout = {"files": ["P"] if proj else ["J0"], "objs": [0, 0, 0]}
+        first = rng.choice([{"op": "set", "p": [], "k": "x", "v": rng.choice([1, "s", {"n": [1]}])},
+                            {"op": "rst", "v": {"x": 1, "y": [1]}, "st": rng.choice([0, 1, 2])},
+                            {"op": "upd", "v": {"k": 0}}])
+        body = [dict(first, o=0)]
+        if rng.random() < 0.5:
+            body.append({"c": "N", "f": 0})
+        second = rng.choice([
+            {"op": "rst", "v": {}, "st": rng.choice([1, 2])},
+            {"op": "rst", "v": {}, "st": rng.choice([1, 2])},
+            {"op": "rst", "v": {"z": 1}, "st": rng.choice([1, 2])},
+            {"op": "live", "src": rng.choice([0, 1]), "st": rng.choice([0, 1, 2])},
+            {"op": "live", "src": 1, "st": rng.choice([1, 2])},
+            {"op": "bad", "kind": rng.choice(["dot", "list", "int", "set"]), "st": rng.choice([0, 1, 2])},
+        ])
+        tail = [dict(second, o=1)]
+        if rng.random() < 0.3:
+            tail.append({"o": 1, "op": rng.choice(["read", "get"]), "k": "x"})
+        if rng.random() < 0.4:
+            tail = [{"c": "E", "cap": rng.choice(CAPS)}] + tail + [{"c": "X"}]
+        yield dict(layout, cmds=with_observations(layout, body + tail, rng.choice(["end", "end", "self"])))
+
+
 def generate(tier, rng):
     for c in exhaustive(tier):
+        yield c
+    for c in setter_cases(rng, 300 if tier == "quick" else 3000):
         yield c
     base = {"files": ["J0", "P"], "objs": [0, 1]}
     for _ in range(40 if tier == "quick" else 400):
